@@ -62,6 +62,7 @@ type siteWalker struct {
 	condStack  []string
 	switchTags []switchCtx
 	varDefs    map[types.Object][]ast.Expr // single-definition right-hand sides
+	calls      map[string][]callCtx
 	// policy obligation
 	appendFacts []appendSite
 	switches    []panicSwitch
@@ -913,6 +914,7 @@ func (w *siteWalker) callSite(e *ast.CallExpr, fs Facts) {
 			return
 		}
 	}
+	w.noteCall(e)
 	fn := w.calleeFunc(e)
 	// accessor calls of package wamp
 	if fn != nil && fn.Pkg() != nil && fn.Pkg().Path() == wampPath && accessorNames[fn.Name()] && len(e.Args) > 0 {
